@@ -347,6 +347,8 @@ pub(crate) fn rfc1071_checksum(bytes: &[u8]) -> u16 {
             sum += bytes[i + 1] as u32;
         }
     }
+    // fold twice: the first fold may itself carry into the upper half
+    let sum = (sum >> 16) + (sum & 0xffff);
     !((sum >> 16) + sum) as u16
 }
 
